@@ -470,7 +470,10 @@ class CircuitTemplate(AbstractBaseTemplate):
         # perform simulation via the graph representation
         #################################################
 
-        # create mapping between requested output variables and the current network variables
+        # create mapping between requested output variables and the current network variables.
+        # The indices are applied to the per-variable records returned by the IR's run method, so state-vector
+        # positions remembered from an earlier `get_run_func` call on this template must not be mixed in.
+        net._state_var_indices = {}
         if type(outputs) is dict:
             output_map, outputs_ir = net.get_variable_positions(outputs)
         else:
